@@ -1,0 +1,64 @@
+//! Verification hook (cargo feature `beff_verif`, off by default): the three host functions that the wasm build
+//! imports from JavaScript are replaced by native closures installed per thread, and the session entry points are
+//! exposed with plain Rust types over the same inner functions. Nothing here is compiled without the feature.
+use std::cell::RefCell;
+
+type ReadFn = Box<dyn Fn(&str) -> Option<String>>;
+type ResolveFn = Box<dyn Fn(&str, &str) -> Option<String>>;
+
+struct Host {
+    read: ReadFn,
+    resolve: ResolveFn,
+    emitted: Vec<String>,
+}
+
+thread_local! {
+    static HOST: RefCell<Host> = RefCell::new(Host {
+        read: Box::new(|_| None),
+        resolve: Box::new(|_, _| None),
+        emitted: Vec::new(),
+    });
+}
+
+/// installs the host of the current thread (the session state `BUNDLER` is thread-local as well)
+pub fn set_host(read: ReadFn, resolve: ResolveFn) {
+    HOST.with(|h| {
+        let mut h = h.borrow_mut();
+        h.read = read;
+        h.resolve = resolve;
+    })
+}
+
+/// diagnostics passed to `emit_diagnostic` since the last call (JSON strings)
+pub fn take_emitted() -> Vec<String> {
+    HOST.with(|h| std::mem::take(&mut h.borrow_mut().emitted))
+}
+
+pub(crate) fn resolve_import(current_file: &str, specifier: &str) -> Option<String> {
+    HOST.with(|h| (h.borrow().resolve)(current_file, specifier))
+}
+
+pub(crate) fn read_file_content(file_name: &str) -> Option<String> {
+    HOST.with(|h| (h.borrow().read)(file_name))
+}
+
+pub(crate) fn emit_diagnostic(diag: String) {
+    HOST.with(|h| h.borrow_mut().emitted.push(diag))
+}
+
+/// `bundle_to_string_v2` without the JsValue wrapper
+pub fn bundle_to_string(parser_entry_point: &str, settings: &str) -> Result<String, String> {
+    crate::bundle_to_string_inner(crate::parse_entrypoints(parser_entry_point, settings))
+        .map_err(|e| e.to_string())
+}
+
+/// `bundle_to_diagnostics` without the JsValue wrapper (JSON)
+pub fn bundle_to_diagnostics(parser_entry_point: &str, settings: &str) -> String {
+    let v = crate::bundle_to_diagnostics_inner(crate::parse_entrypoints(parser_entry_point, settings));
+    serde_json::to_string(&v).expect("should be able to serialize diagnostics")
+}
+
+/// `update_file_content`
+pub fn update_file_content(file_name: &str, content: &str) {
+    crate::update_file_content_inner(file_name, content)
+}
